@@ -9,8 +9,10 @@ VAL = {"k": "i"|"b"|"s"|"n"|"r"|"f"|"t"|"l"|"o", "v": value, "cls": class name, 
 A `sys.settrace` line-event counter bounds every call (budget) and notes executed lines of blocks mypy
 considered unreachable.  The module defines `probe` itself (it appends to `_REC`).
 """
+import enum
 import json
 import sys
+import types
 
 
 class Budget(BaseException):
@@ -44,6 +46,8 @@ def describe(x, depth=2):
             d["items"] = [describe(i, depth - 1) for i in list(x)[:20]]
     else:
         d.update(k="r", cls=t.__qualname__)
+        if isinstance(x, enum.Enum):
+            d["enum"] = x.name
     return d
 
 
@@ -53,7 +57,9 @@ def run_job(job):
     budget = job.get("budget", 200000)
     fname = f"<{name}>"
     res = {"name": name, "load": None, "calls": []}
-    ns = {"__name__": name}
+    mod = types.ModuleType(name)
+    sys.modules[name] = mod
+    ns = mod.__dict__
     try:
         code = compile(src, fname, "exec")
         exec(code, ns)
